@@ -145,7 +145,8 @@ func TestVF_C15_InProcess(t *testing.T) {
 		}
 	}
 	// (a list that names no real method - blank entries - still is a list: everything else is refused)
-	lists := [][]string{nil, admin, {""}, {" "}, {"", "\t"}}
+	// (nil and an empty list written out - "adminService: []" decodes to a non-nil empty slice - both mean "unrestricted")
+	lists := [][]string{nil, {}, admin, {""}, {" "}, {"", "\t"}}
 	for _, a := range admin {
 		lists = append(lists, []string{a})
 		// near misses must not admit the method
